@@ -149,6 +149,36 @@ def followStatus (o : LOrder) (s : Snap) : LOrder :=
 /-- `process_current_order(order, current_order)` -/
 def processCurrent (o : LOrder) (s : Snap) : LOrder := followStatus (pickup o s) s
 
+/-! ### adoption of an order the instance does not know (`Trade.create_order_from_current`, after a restart) -/
+
+inductive CoKind | limit | limitOnClose | marketOnClose
+  deriving DecidableEq, Repr, Inhabited
+
+/-- the terms of a bet as `listCurrentOrders` / the order stream report them -/
+structure CurrentTerms where
+  kind : CoKind
+  price : Rat := 0              -- priceSize.price
+  size : Rat := 0               -- priceSize.size
+  bspLiability : Rat := 0
+  persistence : String := "LAPSE"
+  deriving DecidableEq, Repr, Inhabited
+
+/-- the order type of the adopted order: `LimitOrder(price, size, persistence)`, `LimitOnCloseOrder(liability, price)`,
+    `MarketOnCloseOrder(liability)` -/
+structure AdoptedType where
+  kind : CoKind
+  price : Option Rat := none
+  size : Option Rat := none
+  liability : Option Rat := none
+  persistence : Option String := none
+  deriving DecidableEq, Repr, Inhabited
+
+def adoptType (c : CurrentTerms) : AdoptedType :=
+  match c.kind with
+  | .limit => { kind := .limit, price := some c.price, size := some c.size, persistence := some c.persistence }
+  | .limitOnClose => { kind := .limitOnClose, liability := some c.bspLiability, price := some c.price }
+  | .marketOnClose => { kind := .marketOnClose, liability := some c.bspLiability }
+
 /-! ### transaction counting -/
 
 structure Counts where
